@@ -464,7 +464,7 @@ class SP(Robot):
         self.move(rotation_transform)
         top_joints_space_new = self._top_joints_space.copy()
         bottom_joints_space_new = self._bottom_joints_space.copy()
-        top_joints_copy[0:2, 0:6] = top_joints_space_new[0:2, 0:6]
+        top_joints_copy[0:2, 0:6] = (rotation_transform.gTM()[0:3, 0:3] @ self._top_joints_local)[0:2, 0:6]
         bottom_joints_copy[0:2, 0:6] = bottom_joints_space_new[0:2, 0:6]
         bottom_joints_copy[2, 0:6] = bottom_joints_origin_copy
         top_joints_copy[2, 0:6] = top_joints_origin_copy
